@@ -6,7 +6,8 @@ import (
 	verif "github.com/vedadiyan/genql/zz_verif"
 )
 
-var c13Selectors = []string{"a.b", "arr[0].b", "a.c", "arr.b"}
+// (the last two differ only in a space inside a quoted key: two cache entries)
+var c13Selectors = []string{"a.b", "arr[0].b", "a.c", "arr.b", "'a b'", "'ab'"}
 
 // H_C13_readers: concurrent ExecReader calls (fresh and cached selector
 // texts, separate documents) are race free and each returns its solo result.
@@ -25,7 +26,7 @@ func H_C13_readers() {
 	for i := range docs {
 		xs[i] = verif.F64("x")
 		verif.Assume(xs[i] == xs[i])
-		docs[i] = Map{"a": Map{"b": xs[i], "c": "s"}, "arr": []any{Map{"b": xs[i]}}}
+		docs[i] = Map{"a": Map{"b": xs[i], "c": "s"}, "arr": []any{Map{"b": xs[i]}}, "a b": "with-space", "ab": "without-space"}
 	}
 	if warm == 1 {
 		ExecReader(docs[0], c13Selectors[sel[0]])
@@ -45,6 +46,9 @@ func H_C13_readers() {
 		solo, soloErr := ExecReader(docs[i], c13Selectors[sel[i]])
 		verif.Assert((errs[i] == nil) == (soloErr == nil), "same-error")
 		verif.Assert(verif.Eq(res[i], solo), "same-result")
+		// and what the selector means, whatever the cache held when it ran
+		want := []any{xs[i], xs[i], "s", []any{xs[i]}, "with-space", "without-space"}[sel[i]]
+		verif.Assert(errs[i] == nil && verif.Eq(res[i], want), "documented-result")
 	}
 	verif.Reach("end")
 }
